@@ -401,22 +401,37 @@ def _connect_rules(ctx, cls, ent, accept, reject, w):
 
 
 def _subscribe_rules(ctx, cls, ent, accept, reject, w):
-    # per-topic QoS: a loop over the request's topics whose continuing body paths keep the QoS in [0, 2]
+    # per-topic QoS: what is range-checked must be the QoS of the very entries that are encoded - the second component of each
+    # (topic, qos) pair of the topic list: of each element when the list is a display built by subscribe() itself, of the loop's
+    # own element when the caller's list is walked
     ok_all = bool(accept)
     got = None
     for p, d, c, how in accept:
+        enc = [e for e in p.walk() if e.kind == "ENCODE" and "fields" in e.a and e.a["fields"].get("topics") is not None]
+        if not enc:
+            ok_all = False
+            continue
+        topics = enc[0].a["fields"]["topics"]
+        facts = path_facts(p)
+        if isinstance(topics, tuple) and topics[0] == "list" and all(isinstance(x, tuple) and x[0] == "tuple" and len(x[1]) == 2 for x in topics[1]):
+            for x in topics[1]:
+                got = interval_of(facts, x[1][1])
+                if got != (0, 2):
+                    ok_all = False
+            continue
         found = False
         for e in p.walk():
-            if e.kind != "LOOP":
+            if e.kind != "LOOP" or e.a.get("iter") != topics:
                 continue
-            for bp in e.a["body"]:
-                if bp.exit_kind() not in ("fall", "continue") or bp.st is None:
-                    continue
-                for t in list(bp.st.facts):
-                    if isinstance(t, tuple) and t[0] == "cmp" and is_const(t[3]) and isinstance(t[3][1], int):
-                        got = interval_of(bp.st.facts, t[2])
-                        if got == (0, 2):
-                            found = True
+            names = [n.strip(" ()") for n in str(e.a.get("target") or "").split(",")]
+            qv = ("unk", "unpack:%s" % names[1]) if len(names) == 2 else None
+            conts = [bp for bp in e.a["body"] if bp.exit_kind() in ("fall", "continue") and bp.st is not None]
+            if qv is not None and conts:
+                found = True
+                for bp in conts:
+                    got = interval_of(bp.st.facts, qv)
+                    if got != (0, 2):
+                        found = False
         if not found:
             ok_all = False
     ctx.ob("G-INTERVAL", "%s.subscribe(qos) accepts exactly [0, 2] per topic" % cls_short(cls.qual), ok_all, where=w,
